@@ -980,3 +980,100 @@ class C25DataStore(Base):
                 self.v('store-field-differs:prerequisites',
                        f'{tid}: prerequisite satisfaction in the store '
                        f'{got_pre[:4]} != pool {want_pre[:4]}', {'id': tid})
+
+
+class C27Reload(Base):
+    """Reload preserves task state (snapshots around TaskPool.reload)."""
+    NAME = 'c27'
+    PID = 'C27'
+
+    def __init__(self, case, phase):
+        super().__init__(case, phase)
+        self.before = None
+        self.told = set()       # (point, task, output-name) told so far
+        self.pending = None     # reload action being applied
+
+    def on_event(self, ev):
+        k = ev['k']
+        if k == 'MSG_OUT':
+            p, n = split_id(ev['id'])
+            for o in ev['outputs_after']:
+                self.told.add((str(p), n, o))
+        elif k == 'CMD' and ev['cmd'] == 'reload_workflow':
+            self.pending = ev
+        elif k == 'RELOAD_IN':
+            self.before = ev['pool']
+        elif k == 'RELOAD_OUT' and self.before is not None:
+            self.compare(self.before, ev['pool'])
+            self.before = None
+
+    def compare(self, before, after):
+        act = None
+        for a in self.phase.get('script', []):
+            if a['cmd'] == 'reload_workflow' and a['at'] <= self.drv.bus.it:
+                act = a
+        variant = (act or {}).get('variant', 'unchanged')
+        removed = set((act or {}).get('removed_tasks', []))
+        new_atoms = {tuple(x) for x in (act or {}).get('new_atoms', [])}
+        self.n['reloads'] += 1
+        self.n[f'reload:{variant}'] += 1
+        A = {t['id']: t for t in after}
+        msgs = self.case.get('messages', {})
+        for b in before:
+            tid = b['id']
+            a = A.get(tid)
+            self.n['tasks_compared'] += 1
+            if b['name'] in removed:
+                self.n['removed_definition_tasks'] += 1
+                started = b['status'] not in ('waiting',)
+                if a is None and started:
+                    self.v('started-orphan-dropped',
+                           f'{tid} ({b["status"]}) was dropped by the reload '
+                           'although it had started (its definition was '
+                           'removed)', {'before': b})
+                continue
+            if a is None:
+                self.v('task-lost-on-reload',
+                       f'{tid} ({b["status"]}) disappeared from the pool on '
+                       f'reload ({variant} definition)', {'before': b})
+                continue
+            for fld in ('status', 'flows', 'submit_num', 'held', 'queued',
+                        'runahead', 'outputs'):
+                if a[fld] != b[fld]:
+                    self.v(f'{fld}-not-preserved',
+                           f'{tid}: {fld} {b[fld]!r} before reload, '
+                           f'{a[fld]!r} after ({variant} definition)',
+                           {'before': b, 'after': a})
+            pb = {(x[0], x[1], x[2]): x[3] for x in b['prereqs']}
+            pa = {(x[0], x[1], x[2]): x[3] for x in a['prereqs']}
+            for key, sat in pa.items():
+                if key in pb:
+                    self.n['kept_prereqs_compared'] += 1
+                    if pb[key] != sat:
+                        self.v('prerequisite-satisfaction-changed',
+                               f'{tid}: prerequisite {key} was '
+                               f'{pb[key]} before reload and {sat} after',
+                               {'before': b, 'after': a})
+                else:
+                    self.n['new_prereqs_checked'] += 1
+                    # new prerequisite: satisfied only from recorded outputs
+                    pt, name, msg = key
+                    out = msg
+                    for o, text in msgs.get(name, {}).items():
+                        if text == msg:
+                            out = o
+                    recorded = (pt, name, out) in self.told
+                    if sat and not recorded and int(pt) >= self.gt['initial']:
+                        self.v('new-prerequisite-satisfied-without-record',
+                               f'{tid}: new prerequisite {key} is satisfied '
+                               'after reload but that output was never '
+                               'recorded', {'after': a})
+                    if recorded:
+                        self.n['new_prereq_on_recorded_output'] += 1
+                        if sat:
+                            self.n['new_prereq_satisfied_from_record'] += 1
+        for tid, a in A.items():
+            if tid not in {b['id'] for b in before}:
+                self.v('task-appeared-on-reload',
+                       f'{tid} appeared in the pool during reload',
+                       {'after': a})
